@@ -217,7 +217,7 @@ def check_config(spec, ctx):
         differs = True
     # ---- reuse: assembling twice with one object
     again = _dense(ctx.sut(assemble.assemble_entries, asm, what="assemble_entries(again)"))
-    ctx.require("idempotent", np.array_equal(again, B), "second assembly with the same object differs")
+    ctx.close("idempotent", again, B, rtol=1e-13, atol=1e-13 * scale, scale=np.abs(B), what="second assembly with the same object")
     # ---- update(f=g) / update_params versus a fresh assembler
     if upd:
         fresh, _ = make_asm(spec, which=1)
